@@ -46,7 +46,7 @@ theorem C04_formArgs_current {F : Type} (ext : Ext F) (laws : ExtLaws ext) (hf :
 
 /-- a stand-in runtime for the non-vacuity example below -/
 def demoExt : Ext Nat :=
-  { toIntExact := fun _ => none, f2i := fun _ _ => 0, ofInt := fun _ => 0, round32 := id,
+  { toIntExact := fun _ => none, f2i := fun _ _ => 0, trunc := fun _ => none, ofInt := fun _ => 0, round32 := id,
     isFinite := fun _ => true, isZero := fun _ => false, fmt := fun _ _ => "", parse := fun _ => none,
     timeOfFloat := fun _ => 0, timeParse := fun _ => none, timeFormat := fun _ => "" }
 
